@@ -520,4 +520,33 @@ def coerceToExpectedDyn (resolve : Name → Option Name) (concrete : Ty → Bool
 /-- `has_visible_trait_impl`: the key is looked up in the current package and in every dependency -/
 def hasVisibleTraitImpl {K} (hasKey : K → Bool) (current : K) (deps : List K) : Bool := hasKey current || deps.any hasKey
 
+/-- which path `Typer::infer_static_member_call_expr` (typer/check.rs) takes for `Tr::m(recv, …)` -/
+inductive MemberCallPath where
+  /-- `EDynTraitMethod`: the slot `m` of the receiver's own vtable -/
+  | dynCall (tr m : Name)
+  /-- an `Overloaded` constraint: `impl tr for recvTy` is looked up, the call is named at the static site -/
+  | overloaded (tr : Name) (recvTy : Ty) (m : Name)
+  deriving Repr
+
+/-- the guard of the dynamic path: the receiver is a trait object **of the trait named in the call**.
+A `dyn A` receiver under `B::m(..)` (A ≠ B) is an ordinary receiver type that needs `impl B for dyn A`. -/
+def staticMemberCallPath (tr : Name) (recvTy : Ty) (m : Name) : MemberCallPath :=
+  match recvTy with
+  | .tdyn a => if a == tr then .dynCall tr m else .overloaded tr recvTy m
+  | _ => .overloaded tr recvTy m
+
+/-- `compile_cexpr_effect` (go/compile.rs): does an ANF complex expression compiled for its effect
+emit a Go statement?  Calls — direct and through a vtable — do; value forms do not.  (`EMatch`,
+`EIf`, `EWhile` never reach this function: the statement lowering handles them before.) -/
+inductive CExprKind where
+  | imm | constr | tuple | array | constrGet | unary | binary | toDyn | proj
+  | call | dynCall | goStmt
+  deriving Repr, DecidableEq
+
+def effectEmitsStatement : CExprKind → Bool
+  | .call => true
+  | .dynCall => true
+  | .goStmt => true
+  | _ => false
+
 end Goml.Mangle
